@@ -217,3 +217,39 @@ func TestC11WitnessHalfBuiltIndex(t *testing.T) {
 		Quick: 12, Thorough: 100, Gen: genC11HalfBuilt, Run: runC11,
 	}, "index-visible-before-built", "order")
 }
+
+// --- forced gap for ShiftMatching: the index timestamp leaves the window before the selection lock ----------
+
+// genC11WindowGap: a ShiftMatching over a time index with a FromTime/ToTime window and an index-accelerated
+// filter leg has built its predicate (candidate keys collected) and is paused before the beacon lock; a
+// filter-neutral write moves one candidate's index timestamp out of the window and is acknowledged; then the
+// selection runs. The record is outside the window when it is examined and must not be claimed.
+func genC11WindowGap(t *rapid.T) C11Scenario {
+	n := rapid.IntRange(3, 8).Draw(t, "n")
+	s := C11Scenario{Mem: rapid.Bool().Draw(t, "mem")}
+	// ExpiredAt in [-3000,-100] s, CreatedAt in [-7000,-4100] s
+	for i := 0; i < n; i++ {
+		s.Recs = append(s.Recs, C11Rec{Exp: -rapid.IntRange(100, 3000).Draw(t, "exp"), Cre: -rapid.IntRange(4100, 7000).Draw(t, "cre"),
+			B: Body{Status: "ready", Owner: "none", N: int64(rapid.IntRange(0, 20).Draw(t, "n"))}})
+	}
+	victim := rapid.IntRange(0, n-1).Draw(t, "victim")
+	f := &Filt{Legs: []Leg{{Field: "status", Op: "eq", S: "ready"}}}
+	c := C11Claimer{Kind: "sm", HowMany: 0, Desc: rapid.Bool().Draw(t, "desc"), Filter: excludeAnchor(f)}
+	var m C11Mutator
+	switch rapid.IntRange(0, 2).Draw(t, "variant") {
+	case 0: // expiry index, lease renewal through PatchTreasures Meta.SetExpiredAt (body untouched)
+		c.Index, c.From, c.To = "exp", -3500, -50
+		m = C11Mutator{Kind: "patch", Keys: []int{victim}, ExpSec: rapid.IntRange(600, 4000).Draw(t, "newexp")}
+	case 1: // expiry index, Set of the same body with a new ExpiredAt
+		c.Index, c.From, c.To = "exp", -3500, -50
+		m = C11Mutator{Kind: "set", Keys: []int{victim}, Body: s.Recs[victim].B, ExpSec: rapid.SampledFrom([]int{-20, -10, 700, 2000}).Draw(t, "newexp")}
+	default: // creation index, Set of the same body with a new CreatedAt
+		c.Index, c.From, c.To = "cre", -7500, -4000
+		m = C11Mutator{Kind: "set", Keys: []int{victim}, Body: s.Recs[victim].B, CreSec: -rapid.SampledFrom([]int{100, 2000, 3900, 7600, 9000}).Draw(t, "newcre")}
+	}
+	m.DelayUs = 3000
+	s.Claimers = []C11Claimer{c}
+	s.Mutators = []C11Mutator{m}
+	s.Plan = []vsched.Action{{Site: "beacon:ShiftMatching:Lock:e380a5", Hit: 1, Kind: "pause", Until: "mutators-done", MaxWaitMs: 800}}
+	return s
+}
